@@ -50,6 +50,7 @@ func checkC05(p *Prog, r *Report) {
 	c15PlanNext(p, r, "C05.plan-bounded")
 	// a plan already handed out to a request must stay what it was while hosts come and go
 	c15Cow(p, r, "C05")
+	c05ConnectionLoss(p, r)
 }
 
 func c05PolicyTable(p *Prog, r *Report) {
@@ -485,4 +486,57 @@ func c05Progress(p *Prog, r *Report, rr *reqRoles) {
 		})
 	}
 	r.check(found, rule, "exhaustion-error", p.Pos(rr.execLoop.Pos()), "plan exhaustion answers with a ServerError", "plan exhaustion does not answer with a ServerError")
+}
+
+
+// c05ConnectionLoss: the documented policy for a lost backend connection: an idempotent request
+// continues with the next host of its plan, whatever the error the connection ended with.
+func c05ConnectionLoss(p *Prog, r *Report) {
+	const rule = "C05.connection-loss"
+	r.Rule(rule, "when the backend connection a request was sent on is lost, an idempotent request is handed to the next host of its query plan on every path (not depending on the error value: connections the proxy closes itself - a removed host, an idle time-out - end with proxycore.Closed, and the other hosts still serve); a non-idempotent one is answered with an error")
+	rr := requestRoles(p)
+	rs := newRequestSim(p)
+	base := rs.Model
+	rs.Inline = func(fn *ssa.Function) bool { return rr.helper(p, fn) }
+	rs.Model = func(sm *Sim, st *State, call ssa.CallInstruction, callee *ssa.Function) []*State {
+		switch callee {
+		case rr.checkIdem:
+			t, f := st.clone(), st.clone()
+			t.aux["idem"] = "T"
+			SetCallResult(t, call, avBool(true))
+			f.aux["idem"] = "F"
+			SetCallResult(f, call, avBool(false))
+			return []*State{t, f}
+		case rr.execLoop:
+			arg := "?"
+			if len(call.Common().Args) >= 2 {
+				if b, ok := sm.eval(st, call.Common().Args[1]).isBool(); ok {
+					arg = fmt.Sprint(b)
+				}
+			}
+			st.aux["moved"] = st.aux["moved"] + arg + ","
+			return []*State{st}
+		}
+		return base(sm, st, call, callee)
+	}
+	init := newState()
+	init.cells[rs.doneF] = avBool(false)
+	init.cells[lockCell(rs.muF)] = avBool(false)
+	var bad []string
+	outs := rs.Run(rr.onClose, init)
+	r.count("sim_states", rs.Nodes)
+	nT := 0
+	for _, o := range outs {
+		if o.Panic || o.St.aux["idem"] != "T" {
+			continue
+		}
+		nT++
+		if o.St.aux["moved"] != "true," {
+			bad = append(bad, fmt.Sprintf("an idempotent request whose connection was lost is not handed to the next host exactly once (host walk calls: %q) on the path ending at %s", o.St.aux["moved"], p.Pos(o.Pos)))
+		}
+	}
+	if nT == 0 {
+		bad = append(bad, "no path on which the request is idempotent")
+	}
+	r.check(len(bad) == 0, rule, rr.req.Obj().Name()+".OnClose", p.Pos(rr.onClose.Pos()), fmt.Sprintf("%d idempotent paths, each moves on", nT), strings.Join(dedupe(bad), " || "))
 }
